@@ -446,8 +446,26 @@ def check_reader(prog: Program, res: Result, fn: FuncInfo, kind: str) -> None:
             rem = norm(pm.divmods[0].targets[0].elts[1])
             if lp != Poly.sym(rem) * unit:
                 problems.append(f"final block has {lp.canon()} elements, expected {rem}*{unit.canon()}")
-            g_if = parent(parent(s)) if isinstance(parent(s), ast.Expr) else parent(s)
-            okguard = isinstance(g_if, ast.If) and norm(g_if.test) in (f"{rem} != 0", f"{rem} > 0", rem, f"0 != {rem}", f"0 < {rem}")
+            from ..pathcond import path_conditions as _pcs
+
+            def nonzero(e, pol):
+                """the remainder is known to be non-zero (any spelling)"""
+                if norm(e) == rem:
+                    return pol
+                if isinstance(e, ast.Compare) and len(e.ops) == 1 and {norm(e.left), norm(e.comparators[0])} == {rem, "0"}:
+                    op = e.ops[0]
+                    if isinstance(op, ast.NotEq):
+                        return pol
+                    if isinstance(op, ast.Eq):
+                        return not pol
+                    if isinstance(op, (ast.Gt, ast.Lt)):
+                        # rem > 0 or 0 < rem (the remainder of a divmod by a positive stride is never negative)
+                        return pol and ((isinstance(op, ast.Gt) and norm(e.left) == rem) or (isinstance(op, ast.Lt) and norm(e.left) == "0"))
+                return False
+
+            f_nz = _pcs(flow).truth(s, nonzero)
+            # appended exactly when non-zero: guarded by that fact, and the test itself is evaluated on every path to the loop
+            okguard = f_nz is not None and cfg.dominates(f_nz.test_node, cfg.node_for(pm.loop))
             if not okguard:
                 problems.append("the final partial block is not appended exactly when the remainder is non-zero")
         ki2 = pm.targets.index(skip_t) if skip_t else None
